@@ -585,6 +585,18 @@ func c15Observe(op c15Op) (o c15Obs) {
 				opts = append(opts[:2:2], opts[3:]...)
 			}
 			lg = zap.NewNop().WithOptions(append([]zap.Option{zap.WrapCore(func(zapcore.Core) zapcore.Core { return core })}, opts...)...)
+		} else if op.Ctor == "config" {
+			// built by Config.Build (development and production flavours by turns; never development for a DPanic entry, which
+			// would panic there) with the SAME options: what the caller
+			// passes to Build must win over what the Config itself derives (its own AddCaller / AddStacktrace / ErrorOutput)
+			cfg := zap.Config{Level: zap.NewAtomicLevelAt(zapcore.Level(-128)), Development: op.Depth%2 == 1 && c15FELevel(op.FE, op.Lvl) != 3, Encoding: "json",
+				EncoderConfig: zap.NewProductionEncoderConfig(), DisableCaller: op.NoCaller, OutputPaths: []string{}, ErrorOutputPaths: []string{}}
+			var err error
+			lg, err = cfg.Build(append([]zap.Option{zap.WrapCore(func(zapcore.Core) zapcore.Core { return core })}, opts...)...)
+			if err != nil {
+				o.setupErr = err.Error()
+				return
+			}
 		} else {
 			lg = zap.New(core, opts...)
 		}
@@ -1129,6 +1141,9 @@ func c15Gen(r *Rand, tier string, emit func(op any)) {
 	mk := func(k, fe string, ch []c15D, skip, depth int) c15Op {
 		op := c15Op{K: k, FE: fe, Chain: ch, Skip: skip, Depth: depth, Lvl: Pick(r, lvls), Min: Pick(r, mins),
 			Stack: Pick(r, stackSets), NoCaller: r.Chance(1, 12)}
+		if mkN%5 == 3 {
+			op.Ctor = "config"
+		}
 		if mkN++; mkN%5 == 0 { // no PRNG draw: the other ops stay what they were
 			op.Ctor = "nop"
 			if mkN%10 == 0 {
